@@ -153,7 +153,7 @@ UniformBoundE6(n, B) ==                     \* (sqrt(B)/2 + 1.809)/sqrt(P) + 1e-
 \* ================================================================== scenario table
 Level(n) == IF n <= FullUpTo THEN "full" ELSE IF n <= ReducedUpTo THEN "reduced" ELSE "minimal"
 TexturesFor(n) == CASE Level(n) = "full" -> Textures
-                    [] Level(n) = "reduced" -> {"uniform", "clustered"}
+                    [] Level(n) = "reduced" -> {"uniform"}
                     [] Level(n) = "minimal" -> {"uniform"}
 RelationsFor(s, n) ==
     LET base == CASE Level(n) = "full" -> Relations
